@@ -5,7 +5,8 @@
 d=$1; shift
 S=/tmp/verif-mut/eval-$$; rm -rf $S; mkdir -p $S; rsync -a --exclude .git /repo/ $S/
 ( cd $S && git init -q . >/dev/null 2>&1; patch -p1 --quiet < "$d/patch.diff" ) || { echo "PATCH-DOES-NOT-APPLY"; rm -rf $S; exit 3; }
-( cd $S && GOFLAGS=-mod=mod GOPROXY=off GOSUMDB=off go build ./... && GOFLAGS=-mod=mod GOPROXY=off GOSUMDB=off go test -vet=off -count=1 ./... >/tmp/evalmut-suite-$$.log 2>&1 ) && echo "suite: PASS" || { echo "suite: FAIL"; tail -5 /tmp/evalmut-suite-$$.log; }
+TC=/root/go/pkg/mod/golang.org/toolchain@v0.0.1-go1.24.1.linux-amd64/bin
+( cd $S && export PATH=$TC:$PATH GOTOOLCHAIN=local GOFLAGS=-mod=mod GOPROXY=off GOSUMDB=off; go build ./... && go test -vet=off -count=1 ./... ) >/tmp/evalmut-suite-$$.log 2>&1 && echo "suite: PASS" || { echo "suite: FAIL"; tail -5 /tmp/evalmut-suite-$$.log; }
 for p in "$@"; do
   if [ -n "${BUDGET:-}" ]; then export VERIF_BUDGET_S=$BUDGET; fi
   out=$(cd /verif && VERIF_REPO=$S ./check $p quick 2>&1); rc=$?
